@@ -496,7 +496,9 @@ class ThreadPool(object):
                         future.execute(method, args, kwargs)
                     except Exception as ex:
                         self._logger.exception(
-                            "Error executing %s: %s", method.__name__, ex
+                            "Error executing %s: %s",
+                            getattr(method, "__name__", method),
+                            ex,
                         )
                     finally:
                         # Mark the action as executed
